@@ -1,5 +1,6 @@
 import GomlVerif.Lemmas.GoCompLink
 import GomlVerif.Lemmas.GoCompScope
+import GomlVerif.Lemmas.GoCompTyped
 import GomlVerif.Props.Dce
 import GomlVerif.Gen.GoCompTables
 /-!
@@ -27,8 +28,8 @@ any dispatch table `impls`: the fragment never consults it).
 * **T2 `compile_wellformed`** — the Go function compiled from a fragment function obeys Go's rules
   for locals (`scopeErrs = []`: every local declared before use, nothing redeclared or shadowed) and
   lies in the shape contract of the DCE theorems; hence (`dce_fn_scope_sound`) after dead-code
-  elimination it still does and no local is left unused.  The typing part of `Go.check` is not proved
-  (`Go.Sem` is untyped; typing stays `./check C02`'s oracle on the real output).
+  elimination it still does and no local is left unused.  `compile_wellformed_typed_partial` is the
+  typing half for stage (a) functions (against the total mirror `GoTyping.fnOKT` of `Go.check`'s typing rules).
 
 What is missing for the full property (C01 for the back end): the fragment (tuples,
 `Ref`, arrays, `Vec`, closures as values, `dyn`, `go`, floats are outside — those
@@ -173,7 +174,7 @@ theorem compile_preserves_run (env : Env) (file : AFile) (n0 : Nat) (G : List St
     fixed), the environments and worlds are related, the Go names `S` is about to declare are new,
     the assignment target is a declared Go variable -/
 structure Ready (env : Env) (η : Hp) (file : AFile) (G : List String) (Bad : List String) (m : Mode) (st : St) (e : AExpr)
-    (Γ : Ctx) (K : KCtx) (ρ : Sem.Env) (w : World) (gρ : GEnv) (gw : GWorld) : Prop where
+    (Γ : GoFrag.Ctx) (K : KCtx) (ρ : Sem.Env) (w : World) (gρ : GEnv) (gw : GWorld) : Prop where
   frag : fragA env file G Γ K e = true
   envs : EnvRel env η Γ ρ gρ
   known : KRel K ρ
@@ -187,7 +188,7 @@ structure Ready (env : Env) (η : Hp) (file : AFile) (G : List String) (Bad : Li
     an ANF expression of the fragment reproduce every definite `Sem.eval` run of it: same world, and
     in assign mode the target variable holds the corresponding value afterwards (`Concl`). -/
 theorem compile_stmts_preserve (env : Env) (η : Hp) (file : AFile) (n0 : Nat) (G : List String)
-    (hG : closedOK env file n0 G = true) (P : Prog) (hP : P.fns = file.map AFn.toFn) (Bad : List String) (m : Mode) (st : St) (e : AExpr) (Γ : Ctx) (K : KCtx) (ρ : Sem.Env)
+    (hG : closedOK env file n0 G = true) (P : Prog) (hP : P.fns = file.map AFn.toFn) (Bad : List String) (m : Mode) (st : St) (e : AExpr) (Γ : GoFrag.Ctx) (K : KCtx) (ρ : Sem.Env)
     (w : World) (gρ : GEnv) (gw : GWorld) (h : Ready env η file G Bad m st e Γ K ρ w gρ gw) (fuel : Nat) :
     Concl env η (goFilePreSt env file n0).1 (compileA env m st e).1 m gρ gw (aTy e)
       (Sem.eval fuel P ρ w e.toExpr) :=
@@ -201,7 +202,7 @@ theorem compile_stmts_preserve (env : Env) (η : Hp) (file : AFile) (n0 : Nat) (
     everything after it. -/
 theorem compile_order (env : Env) (η : Hp) (file : AFile) (n0 : Nat) (G : List String)
     (hG : closedOK env file n0 G = true) (P : Prog) (hP : P.fns = file.map AFn.toFn) (Bad : List String) (m : Mode) (st : St) (x : String) (v : CExpr)
-    (body : AExpr) (ty : Ty) (Γ : Ctx) (K : KCtx) (ρ : Sem.Env) (w : World) (gρ : GEnv) (gw : GWorld)
+    (body : AExpr) (ty : Ty) (Γ : GoFrag.Ctx) (K : KCtx) (ρ : Sem.Env) (w : World) (gρ : GEnv) (gw : GWorld)
     (h : Ready env η file G Bad m st (.letE x v body ty) Γ K ρ w gρ gw) (fuel : Nat) :
     (compileA env m st (.letE x v body ty)).1 =
         letPrefix env st x v ++ (compileA env m (letBodySt env st x v) body).1 ∧
@@ -242,6 +243,27 @@ theorem compile_wellformed (env : Env) (file : AFile) (n0 : Nat) (G : List Strin
   exact ⟨_, hfind, hclean.1, hclean.2, (Goml.Dce.dce_fn_scope_sound _ hclean.1 hclean.2).1,
     (Goml.Dce.dce_fn_scope_sound _ hclean.1 hclean.2).2⟩
 
+/-- **T2, typing half `compile_wellformed_typed_partial`**: for a stage (a) function `f` of a closed set `G` (`stdFn`:
+    parameters, result and every annotation are unit / bool / string / an integer type of a Go width; operators, calls of
+    functions of `G` and of the printing builtins, `let`, `if`, `while`) the compiled Go function obeys the **typing** rules
+    of `Go.check` — every expression has the Go type of its ANF annotation, operands agree, conditions are `bool`, call
+    arguments, assignments, initialisers and the `return` are assignable, integer literals fit their type, expression
+    statements are calls, the body ends in a `return` — in the typing context of the emitted file.
+    *Partial* in two ways: (i) stage (a) only (struct / enum / `Ref` / tuple / array values and `match` are not covered:
+    they need the struct table with field types and interface satisfaction of the variant structs); (ii) `Go.check` itself
+    is written with `partial def`s, opaque to the kernel, so the statement is about its total mirror `GoTyping.fnOKT`
+    (`Model/GoTyping.lean`), which `gomlmodel gocomp` compares with `Go.check` on every function of every real emitted file
+    on every run (8 090 functions agree, 82 of them on a typing *error*, 0 disagree).  No separate `Wt` hypothesis: the
+    fragment check `fragA` is itself a type checker of the ANF (every variable at its binder's type, every operator and
+    call at its signature) and is what the proof uses. -/
+theorem compile_wellformed_typed_partial (env : Env) (file : AFile) (n0 : Nat) (G : List String)
+    (hG : closedOK env file n0 G = true) (f : AFn) (hf : f ∈ file) (hfG : f.name ∈ G) (hstd : stdFn f = true) :
+    ∃ gf, (goFilePreSt env file n0).1.findFunc (fnName f.name) = some gf ∧
+      Goml.GoTyping.fnOKT (Goml.GoTyping.mkTCtx (goFilePreSt env file n0).1) gf = .ok () := by
+  have hl := link_of_closed hG (P := progOf file) rfl
+  obtain ⟨st, hfind, hlocal⟩ := hl.fnGo f hf hfG
+  exact ⟨_, hfind, fn_typed (tlink_of_link hl) hlocal hstd⟩
+
 /-! ## non-vacuity: a concrete file inside the fragment -/
 section Examples
 private def t32 : Ty := .int 32 true
@@ -267,6 +289,14 @@ private def exFile : AFile := [exAdd, exMain]
 /-- both functions are in the fragment (file-level conditions, source and Go-side checks) -/
 example : InGoFragment {} exFile 0 exMain ∧ InGoFragment {} exFile 0 exAdd := by
   constructor <;> (unfold InGoFragment; decide +kernel)
+
+/-- both are stage (a) functions, so the typing half of T2 applies to them: the functions the back end emits for
+    them are well typed -/
+example : stdFn exMain = true ∧ stdFn exAdd = true := by decide +kernel
+example : ∃ gf, (goFilePreSt {} exFile 0).1.findFunc "main0" = some gf ∧
+    Goml.GoTyping.fnOKT (Goml.GoTyping.mkTCtx (goFilePreSt {} exFile 0).1) gf = .ok () :=
+  compile_wellformed_typed_partial {} exFile 0 (goodFns {} exFile 0) (by decide +kernel) exMain (by simp [exFile])
+    (by decide +kernel) (by decide +kernel)
 
 /-- the hypotheses of `compile_preserves_run` hold of it and its `Sem` run is definite -/
 example : closedOK {} exFile 0 (goodFns {} exFile 0) = true ∧ "main" ∈ goodFns {} exFile 0 ∧
